@@ -128,7 +128,7 @@ func runC04(x *simkit.Exec) {
 	full := !x.Bool("partialcopies", 1, 3)
 	// scrape intervals of 1 s, 15 s and 60 s: the penalty-based deduplication carries time constants
 	step := []int64{1000, 15000, 60000}[x.Draw("scrapeinterval", 3)]
-	ds := genDataset(x, genOpts{StepMs: step, MaxStores: 5, MaxSeries: 10, MaxChunks: 6, MaxSamples: 12, AllowLegacy: true, FullCopies: full, OverlapCuts: true,
+	ds := genDataset(x, genOpts{StepMs: step, MaxStores: 5, MaxSeries: 10, MaxChunks: 6, MaxSamples: 12, AllowLegacy: true, FullCopies: full, OverlapCuts: true, StoredReplicaLabelToo: true,
 		ReplicaModes: []string{"ext", "stored", "none", "ext"}})
 	dedup := !x.Bool("dedupoff", 1, 3)
 	ms := genMatchers(x, false)
